@@ -114,6 +114,7 @@ type request struct {
 }
 
 type exp struct {
+	built  map[string]interface{}
 	reg    *labdriver.Registry
 	names  map[reflect.Type]string
 	events []interface{}
@@ -138,7 +139,7 @@ func run(reg *labdriver.Registry, raw json.RawMessage) interface{} {
 	if err := dec.Decode(&q); err != nil {
 		return bad("bad request: %v", err)
 	}
-	e := &exp{reg: reg, names: map[reflect.Type]string{}, wraps: map[string]int{}}
+	e := &exp{reg: reg, names: map[reflect.Type]string{}, wraps: map[string]int{}, built: map[string]interface{}{}}
 	for name, ctor := range reg.Structs {
 		e.names[reflect.TypeOf(ctor())] = name
 	}
@@ -167,7 +168,97 @@ func (e *exp) dumpValue(x interface{}) interface{} {
 	if err, ok := x.(error); ok {
 		return e.dumpErr(err)
 	}
-	return e.reg.Dump(reflect.ValueOf(x))
+	return e.dump(reflect.ValueOf(x))
+}
+
+// dump is labdriver's Dump made canonical: the entries of Go maps (Thrift maps and sets) sorted
+func (e *exp) dump(v reflect.Value) interface{} {
+	if !v.IsValid() {
+		return nil
+	}
+	return e.canon(v.Type(), e.reg.Dump(v))
+}
+
+func (e *exp) fieldTypes(t reflect.Type) map[string]reflect.Type {
+	out := map[string]reflect.Type{}
+	for i := 0; i < t.NumField(); i++ {
+		f := t.Field(i)
+		parts := strings.Split(f.Tag.Get("thrift"), ",")
+		if len(parts) >= 2 {
+			if _, err := strconv.Atoi(parts[1]); err == nil {
+				out[parts[1]] = f.Type
+			}
+		}
+	}
+	if len(out) == 0 {
+		for _, m := range e.reg.Fields[e.names[reflect.PtrTo(t)]] {
+			if sf, ok := t.FieldByName(m.GoName); ok {
+				out[strconv.Itoa(m.ID)] = sf.Type
+			}
+		}
+	}
+	return out
+}
+
+func (e *exp) canon(t reflect.Type, d interface{}) interface{} {
+	if d == nil {
+		return nil
+	}
+	switch t.Kind() {
+	case reflect.Ptr:
+		return e.canon(t.Elem(), d)
+	case reflect.Struct:
+		m, ok := d.(map[string]interface{})
+		if !ok {
+			return d
+		}
+		ft := e.fieldTypes(t)
+		out := map[string]interface{}{}
+		for k, v := range m {
+			if tt, ok := ft[k]; ok {
+				out[k] = e.canon(tt, v)
+			} else {
+				out[k] = v
+			}
+		}
+		return out
+	case reflect.Slice:
+		l, ok := d.([]interface{})
+		if !ok || t.Elem().Kind() == reflect.Uint8 {
+			return d
+		}
+		out := make([]interface{}, len(l))
+		for i, x := range l {
+			out[i] = e.canon(t.Elem(), x)
+		}
+		return out
+	case reflect.Map:
+		l, ok := d.([]interface{})
+		if !ok {
+			return d
+		}
+		type ent struct {
+			key string
+			val interface{}
+		}
+		ents := make([]ent, 0, len(l))
+		for _, x := range l {
+			kv, ok := x.([]interface{})
+			if !ok || len(kv) != 2 {
+				return d
+			}
+			pair := []interface{}{e.canon(t.Key(), kv[0]), e.canon(t.Elem(), kv[1])}
+			b, _ := json.Marshal(pair)
+			ents = append(ents, ent{string(b), pair})
+		}
+		sort.Slice(ents, func(i, j int) bool { return ents[i].key < ents[j].key })
+		out := make([]interface{}, len(ents))
+		for i, x := range ents {
+			out[i] = x.val
+		}
+		return out
+	}
+	return d
 }
 
 // an FContext is shown as its correlation id and the request headers the middleware added
@@ -187,7 +278,7 @@ func (e *exp) dumpErr(err error) interface{} {
 		return nil
 	}
 	if name, ok := e.names[reflect.TypeOf(err)]; ok {
-		return map[string]interface{}{"k": "exc", "type": name, "value": e.reg.Dump(reflect.ValueOf(err))}
+		return map[string]interface{}{"k": "exc", "type": name, "value": e.dump(reflect.ValueOf(err))}
 	}
 	var ae thrift.TApplicationException
 	if errors.As(err, &ae) {
@@ -320,6 +411,14 @@ func (e *exp) middleware(spec mwSpec, argTypes, resTypes []reflect.Type) (frugal
 		return nil, fmt.Errorf("middleware %d post: %v", spec.ID, err)
 	}
 	id := spec.ID
+	vals := func(rws []rewrite) []interface{} {
+		out := []interface{}{}
+		for _, r := range rws {
+			out = append(out, e.dumpValue(r.val))
+		}
+		return out
+	}
+	e.built["mw"+strconv.Itoa(id)] = map[string]interface{}{"pre": vals(pre), "post": vals(post)}
 	return func(next frugal.InvocationHandler) frugal.InvocationHandler {
 		e.wraps[e.phase+strconv.Itoa(id)]++
 		return func(svc reflect.Value, method reflect.Method, args frugal.Arguments) frugal.Results {
@@ -458,12 +557,23 @@ func (e *exp) rpc(q *request) interface{} {
 			return bad("ret: %v", err)
 		}
 		hret = v.Interface()
-		zero = e.reg.Dump(reflect.Zero(resTypes[0]))
+		zero = e.dump(reflect.Zero(resTypes[0]))
 	}
 	herr, err := e.buildErr(q.HErr)
 	if err != nil {
 		return bad("herr: %v", err)
 	}
+	e.built["ret"] = e.dumpValue(hret)
+	e.built["herr"] = e.dumpErr(herr)
+	bargs := []interface{}{}
+	for i, a := range q.Args {
+		v, err := e.reg.Build(argTypes[i+1], a)
+		if err != nil {
+			return bad("arg %d: %v", i, err)
+		}
+		bargs = append(bargs, e.dump(v))
+	}
+	e.built["args"] = bargs
 	lists := map[string][]frugal.ServiceMiddleware{}
 	for name, x := range map[string]struct {
 		specs []mwSpec
@@ -531,7 +641,7 @@ func (e *exp) rpc(q *request) interface{} {
 		runs = append(runs, e.guarded(func(out map[string]interface{}) {
 			res := client.MethodByName(q.Method).Call(in)
 			if len(res) == 2 {
-				out["ret"] = e.reg.Dump(res[0])
+				out["ret"] = e.dump(res[0])
 			}
 			last := res[len(res)-1]
 			if last.IsNil() {
@@ -541,8 +651,7 @@ func (e *exp) rpc(q *request) interface{} {
 			}
 		}))
 	}
-	return labdriver.Resp{"code": 0, "runs": runs, "wraps": wraps, "zero": zero, "nmethods": len(entry.Methods),
-		"nret": len(resTypes)}
+	return labdriver.Resp{"code": 0, "runs": runs, "wraps": wraps, "zero": zero, "nret": len(resTypes), "built": e.built}
 }
 
 // guarded runs one call; a panic ends the run with the events recorded so far
@@ -671,6 +780,10 @@ func (e *exp) scope(q *request) interface{} {
 	if err != nil {
 		return bad("%v", err)
 	}
+	e.built["herr"] = e.dumpErr(herr)
+	if bv, err := e.reg.Build(valT, q.Value); err == nil {
+		e.built["value"] = e.dump(bv)
+	}
 	e.wraps = map[string]int{}
 	e.phase = ""
 	b := &bus{e: e}
@@ -748,7 +861,7 @@ func (e *exp) scope(q *request) interface{} {
 			}
 		}))
 	}
-	return labdriver.Resp{"code": 0, "runs": runs, "wraps": wraps}
+	return labdriver.Resp{"code": 0, "runs": runs, "wraps": wraps, "built": e.built}
 }
 
 var _ = mwType
